@@ -626,6 +626,12 @@ func (r *Runner) Probe() {
 
 // RunCorpus runs the stored regression cases (one JSON object {op,args,feat} per file) first.
 func (r *Runner) RunCorpus(dir string) {
+	if r.Shard != 0 {
+		// corpus cases carry fixed scratch paths (run directory, marker file): the shards of a thorough
+		// run work at the same time and would disturb each other there (false alarm seen in the
+		// first thorough run of C02). One shard runs the corpus.
+		return
+	}
 	ents, err := os.ReadDir(dir)
 	if err != nil {
 		return
